@@ -257,4 +257,109 @@ def i2 : Str := [105, 50]
 /-- the history of the repaired defect: 60 + 30 under limit 100, limit lowered to 50, `i1` reports 40 -/
 def demoOps : List Op := [.set i1 1 60, .set i2 1 30, .resize 50, .set i1 2 40]
 
+/-! ### the fine-grained system (`KG.Model.GlobalCount.Fine`): invariant -/
+
+/-- program counters inside the critical section of `f.lock` -/
+def inside : Pc → Bool
+  | .idle | .wantLock .. | .resizeStore .. => false
+  | _ => true
+
+def okCount (c : Int) : Prop := 0 ≤ c ∧ c ≤ 2147483647
+
+/-- what holds of the shared state while the lock owner is at `pc` (the limit `max` does not occur: `Resize`
+    may store it at any moment) -/
+def PcInv (g : G) : Pc → Prop
+  | .locked _ _ c => g.count = wrap32 (sumStates g.states) ∧ InI32 c
+  | .rmDeleted st => g.count = wrap32 (sumStates g.states + st.count) ∧ okCount st.count
+  | .unlocking _ => g.count = wrap32 (sumStates g.states)
+  | .haveState i _ c => g.count = wrap32 (sumStates g.states) ∧ okCount c ∧ (find i g.states).isSome
+  | .idChecked i _ c => g.count = wrap32 (sumStates g.states) ∧ okCount c ∧ (find i g.states).isSome
+  | .idStored i _ c => g.count = wrap32 (sumStates g.states) ∧ okCount c ∧ (find i g.states).isSome
+  | .swapped i _ c old =>
+    g.count = wrap32 (sumStates g.states - c + old) ∧ okCount c ∧ okCount old ∧ ∃ id, find i g.states = some ⟨c, id⟩
+  | .added i _ c old delta cnt =>
+    g.count = cnt ∧ cnt = wrap32 (sumStates g.states) ∧ delta = c - old ∧ okCount c ∧ okCount old ∧
+      ∃ id, find i g.states = some ⟨c, id⟩
+  | .rollback1 i old delta =>
+    g.count = wrap32 (sumStates g.states) ∧ okCount old ∧ ∃ c id, find i g.states = some ⟨c, id⟩ ∧ delta = c - old ∧ okCount c
+  | .rollback2 _ delta => g.count = wrap32 (sumStates g.states + delta) ∧ InI32 delta
+  | .idle | .wantLock .. | .resizeStore .. => False
+
+/-- the invariant of the fine-grained system -/
+structure FInv (s : Fine) : Prop where
+  allOk : AllOk s.g.states
+  nodup : (keys s.g.states).Nodup
+  /-- only the owner is inside -/
+  excl : ∀ (t : Nat) (pc : Pc), s.pcs[t]? = some pc → inside pc = true → s.owner = some t
+  /-- the owner is inside, at a pc whose assertion holds -/
+  own : ∀ (t : Nat), s.owner = some t → ∃ pc, s.pcs[t]? = some pc ∧ inside pc = true ∧ PcInv s.g pc
+  /-- nobody inside: the total is the sum -/
+  free : s.owner = none → s.g.count = wrap32 (sumStates s.g.states)
+  /-- arguments of pending calls are `int32`s -/
+  args : ∀ (t : Nat) (i : Str) (r c : Int), s.pcs[t]? = some (Pc.wantLock i r c) → InI32 c
+
+def fineInit (max : Int) (threads : Nat) : Fine := ⟨G.init max, none, List.replicate threads .idle⟩
+
+/-- a schedule: which thread moves, and the call it starts if it is idle; `none` if some step is not enabled -/
+def fineRun (s : Fine) : List (Nat × Option Op) → Option Fine
+  | [] => some s
+  | (t, call) :: rest =>
+    match fineStep s t call with
+    | none => none
+    | some s' => fineRun s' rest
+
+
+/-! ### the fine-grained system refines the atomic one (forward simulation) -/
+
+/-- `SetState` registers a fresh `instanceState{}` for an unknown instance before anything else -/
+def ensure (g : G) (inst : Str) : G :=
+  match find inst g.states with
+  | some _ => g
+  | none => { g with states := put inst ⟨0, 0⟩ g.states }
+
+def stateOf (g : G) (inst : Str) : Inst :=
+  match find inst g.states with
+  | some s => s
+  | none => ⟨0, 0⟩
+
+/-- the call a thread is executing and that has not taken effect in the atomic system yet -/
+def pendingOp : Pc → Option Op
+  | .wantLock i r c | .locked i r c | .haveState i r c | .idChecked i r c | .idStored i r c
+  | .swapped i r c _ | .added i r c _ _ _ => some (.set i r c)
+  | .resizeStore n => some (.resize n)
+  | _ => none
+
+/-- how the shared state `g` of the fine-grained system relates to the state `a` of the atomic system while the
+    lock owner is at `pc`: before the call's linearization point (removal / stale id / unknown instance with a
+    negative count: the step that decides it; report: the `LoadInt32(&f.max)` after the add) `a` is still the
+    state at lock time, afterwards it already is the result of the atomic `setState` -/
+def SimPc (g a : G) : Pc → Prop
+  | .locked _ _ _ => a.count = g.count ∧ a.states = g.states
+  | .unlocking _ => a.count = g.count ∧ a.states = g.states
+  | .rmDeleted st => a.states = g.states ∧ a.count = wrap32 (g.count + wrap32 (-st.count))
+  | .haveState i _ c => 0 ≤ c ∧ g.count = a.count ∧ g.states = (ensure a i).states
+  | .idChecked i r c =>
+    0 ≤ c ∧ g.count = a.count ∧ g.states = (ensure a i).states ∧ r > 0 ∧ ¬ r ≤ (stateOf a i).requestId
+  | .idStored i r c =>
+    0 ≤ c ∧ g.count = a.count ∧ ¬ (r > 0 ∧ r ≤ (stateOf a i).requestId) ∧
+      g.states = put i ⟨(stateOf a i).count, newId (stateOf a i) r⟩ (ensure a i).states
+  | .swapped i r c old =>
+    0 ≤ c ∧ g.count = a.count ∧ ¬ (r > 0 ∧ r ≤ (stateOf a i).requestId) ∧ old = (stateOf a i).count ∧
+      g.states = put i ⟨c, newId (stateOf a i) r⟩ (ensure a i).states
+  | .added i r c old delta cnt =>
+    0 ≤ c ∧ ¬ (r > 0 ∧ r ≤ (stateOf a i).requestId) ∧ old = (stateOf a i).count ∧ delta = wrap32 (c - old) ∧
+      cnt = wrap32 (a.count + delta) ∧ g.count = cnt ∧ g.states = put i ⟨c, newId (stateOf a i) r⟩ (ensure a i).states
+  | .rollback1 i _ delta =>
+    ∃ c id, find i g.states = some ⟨c, id⟩ ∧ a.states = put i ⟨wrap32 (c + wrap32 (-delta)), id⟩ g.states ∧
+      a.count = wrap32 (g.count + wrap32 (-delta))
+  | .rollback2 _ delta => a.states = g.states ∧ a.count = wrap32 (g.count + wrap32 (-delta))
+  | .idle | .wantLock .. | .resizeStore .. => False
+
+/-- the simulation relation between the fine-grained system and the atomic system -/
+def Sim (s : Fine) (a : G) : Prop :=
+  a.max = s.g.max ∧
+  match s.owner with
+  | none => a.count = s.g.count ∧ a.states = s.g.states
+  | some t => ∃ pc, s.pcs[t]? = some pc ∧ SimPc s.g a pc
+
 end KG.Spec.GlobalCount
